@@ -30,7 +30,8 @@ RULE = ("cases: (a) synthetic — a periodic structure with 1–4 planted copies
         "second replacement (search = geometry of the first replacement pattern) applied to the result of the first; "
         "(c) tagged streams for the three known findings: orphan coefficient table, zero replaced matches (fraction 0 / "
         "pattern absent: the type tables are extended all the same), chains and stars of one element whose neighbouring "
-        "occurrences overlap so that one match retains an atom another removes, or retain it in different roles; "
+        "occurrences overlap so that one match retains an atom another removes, or retain it in different roles; chains / stars whose selected "
+        "matches share some but not all REMOVED atoms, ignore flag on; "
         "(d) the documented workflow on docs/examples (uio66.cif, atom types but no pair table, metal centre then linker, "
         "parameterised patterns). Oracle on the in-memory result, on the LAMMPS file written by save_lmpdat and read by "
         "an independent reader, and on that file re-loaded by load_lmpdat. Non-trivial = distinct input with >= 1 "
@@ -700,6 +701,13 @@ def run(ctx, oracle_only=False):
     for i in range(ctx.n(6, 40)):
         batch.do(g.overlap_case(rng))
         ctx.count("overlap-stream")
+    # selected matches whose REMOVAL sets overlap partially, ignore flag (mostly) on: every atom removed by any selected
+    # match is gone exactly once, the terms touching it are gone, each match's pattern terms are there
+    for i in range(ctx.n(8, 60)):
+        out = batch.do(g.partial_overlap_case(rng))
+        ctx.count("partial-overlap-stream")
+        if "ok" in out and out.get("n", 0) >= 2:
+            ctx.count("partial-overlap-stream:replaced>=2-matches")
     batch.flush()
     # every compatible combination for every kind (thorough: all; quick: a rotating sample)
     combos = []
